@@ -166,3 +166,225 @@ Proof.
   cbn [app]. destruct (a ++ x :: b) eqn:E; [destruct a; discriminate|].
   change (last (y :: a0 :: l) d) with (last (a0 :: l) d). exact IH.
 Qed.
+
+(* ------------------------------------------------------------------ strings.TrimSpace on ASCII text *)
+Lemma trim_left_plain c r :
+  c < 128 -> trim_left (c :: r) = if ascii_space c then trim_left r else c :: r.
+Proof.
+  intros H. cbn [trim_left]. destruct (ascii_space c); [reflexivity|].
+  assert (c =? 194 = false) as E1 by (apply N.eqb_neq; lia).
+  assert (c =? 225 = false) as E2 by (apply N.eqb_neq; lia).
+  assert (c =? 226 = false) as E3 by (apply N.eqb_neq; lia).
+  assert (c =? 227 = false) as E4 by (apply N.eqb_neq; lia).
+  destruct r as [|d r2]; [reflexivity|]. unfold uni_space2. rewrite E1. cbn [andb].
+  destruct r2 as [|e r3]; [reflexivity|]. unfold uni_space3. rewrite E2, E3, E4. reflexivity.
+Qed.
+
+Lemma graphic_facts c : graphic c = true -> c < 128 /\ ascii_space c = false /\ c <> NL /\ c <> CR /\ text_byte c = true.
+Proof.
+  unfold graphic, ascii_space, text_byte, NL, CR. intros H. apply andb_true_iff in H as [H1 H2].
+  apply N.leb_le in H1, H2.
+  repeat split; try lia.
+  - repeat (apply orb_false_iff; split); apply N.eqb_neq; lia.
+  - apply orb_true_iff. left. apply andb_true_iff. split; apply N.leb_le; lia.
+Qed.
+
+Lemma blank_facts c : blank_byte c = true -> c < 128 /\ ascii_space c = true /\ text_byte c = true.
+Proof.
+  unfold blank_byte, ascii_space, text_byte. intros H. apply orb_true_iff in H as [H|H]; apply N.eqb_eq in H; subst; auto.
+  - repeat split; reflexivity.
+  - repeat split; reflexivity.
+Qed.
+
+Lemma text_facts c : text_byte c = true -> c < 128 /\ c <> NL /\ c <> CR.
+Proof.
+  unfold text_byte, NL, CR. intros H. apply orb_true_iff in H as [H|H].
+  - apply andb_true_iff in H as [H1 H2]. apply N.leb_le in H1, H2. lia.
+  - apply N.eqb_eq in H. lia.
+Qed.
+
+Lemma trim_left_blank_app ws s : forallb blank_byte ws = true -> trim_left (ws ++ s) = trim_left s.
+Proof.
+  induction ws as [|c ws IH]; intros H; [reflexivity|].
+  cbn [forallb] in H. apply andb_true_iff in H as [Hc Hw]. destruct (blank_facts c Hc) as (L & S & _).
+  cbn [app]. rewrite trim_left_plain by exact L. rewrite S. now apply IH.
+Qed.
+
+Lemma trim_left_graphic c r : graphic c = true -> trim_left (c :: r) = c :: r.
+Proof. intros H. destruct (graphic_facts c H) as (L & S & _). rewrite trim_left_plain by exact L. now rewrite S. Qed.
+
+Lemma trim_right_graphic c r : graphic c = true -> trim_right (c :: r) = c :: trim_right r.
+Proof. intros H. cbn [trim_right]. unfold all_space. rewrite trim_left_graphic by exact H. reflexivity. Qed.
+
+Lemma trim_right_blank ws : forallb blank_byte ws = true -> trim_right ws = [].
+Proof.
+  intros H. destruct ws as [|c ws]; [reflexivity|]. cbn [trim_right]. unfold all_space.
+  rewrite <- (app_nil_r (c :: ws)), trim_left_blank_app by exact H. reflexivity.
+Qed.
+
+Lemma trim_right_graphic_app core ws :
+  forallb graphic core = true -> forallb blank_byte ws = true -> trim_right (core ++ ws) = core.
+Proof.
+  induction core as [|c core IH]; intros Hc Hw; [now apply trim_right_blank|].
+  cbn [forallb] in Hc. apply andb_true_iff in Hc as [H1 H2].
+  cbn [app]. rewrite trim_right_graphic by exact H1. now rewrite IH.
+Qed.
+
+(* lead blanks, a graphic core, trailing blanks *)
+Lemma trim_space_core lead core trail :
+  forallb blank_byte lead = true -> forallb graphic core = true -> forallb blank_byte trail = true ->
+  trim_space (lead ++ core ++ trail) = core.
+Proof.
+  intros Hl Hc Ht. unfold trim_space. rewrite trim_left_blank_app by exact Hl.
+  destruct core as [|c core].
+  - cbn [app]. rewrite <- (app_nil_r trail), trim_left_blank_app by exact Ht. reflexivity.
+  - cbn [forallb] in Hc. apply andb_true_iff in Hc as [H1 H2]. cbn [app].
+    rewrite trim_left_graphic by exact H1.
+    change (c :: core ++ trail) with ((c :: core) ++ trail). apply trim_right_graphic_app; [|exact Ht].
+    cbn [forallb]. now rewrite H1.
+Qed.
+
+(* a blank-indented line whose first non-blank bytes are the graphic word w keeps w as a prefix *)
+Lemma trim_space_prefix lead w text :
+  forallb blank_byte lead = true -> forallb graphic w = true -> w <> [] ->
+  exists t, trim_space (lead ++ w ++ text) = w ++ t.
+Proof.
+  intros Hl Hw Hne. unfold trim_space. rewrite trim_left_blank_app by exact Hl.
+  destruct w as [|c w]; [congruence|]. cbn [forallb] in Hw. apply andb_true_iff in Hw as [H1 H2].
+  cbn [app]. rewrite trim_left_graphic by exact H1.
+  clear Hl Hne lead. revert c H1. induction w as [|d w IH]; intros c H1.
+  - rewrite trim_right_graphic by exact H1. eexists. reflexivity.
+  - cbn [forallb] in H2. apply andb_true_iff in H2 as [H3 H4].
+    rewrite trim_right_graphic by exact H1. cbn [app]. destruct (IH H4 d H3) as (t & E).
+    cbn [app] in E. rewrite E. eexists. reflexivity.
+Qed.
+
+Lemma has_prefix_app p t : has_prefix p (p ++ t) = true.
+Proof. induction p as [|c p IH]; [reflexivity|]. cbn. now rewrite N.eqb_refl. Qed.
+
+Lemma has_prefix_in p g : has_prefix p g = true -> forall x, In x p -> In x g.
+Proof.
+  revert g. induction p as [|c p IH]; intros g H x Hin; [contradiction|].
+  destruct g as [|d g]; [discriminate|]. cbn in H. apply andb_true_iff in H as [H1 H2].
+  apply N.eqb_eq in H1. subst d. destruct Hin as [->|Hin]; [now left|]. right. now apply (IH g).
+Qed.
+
+Lemma has_prefix_split p g c rest :
+  has_prefix p (g ++ c :: rest) = true -> In c p \/ has_prefix p g = true.
+Proof.
+  revert g. induction p as [|x p IH]; intros g H; [now right|].
+  destruct g as [|d g].
+  - cbn in H. apply andb_true_iff in H as [H1 _]. apply N.eqb_eq in H1. left. now left.
+  - cbn in H. apply andb_true_iff in H as [H1 H2]. destruct (IH g H2) as [Hin|Hp].
+    + left. now right.
+    + right. cbn. now rewrite H1.
+Qed.
+
+Lemma contains_byte_in c l : contains_byte c l = true <-> In c l.
+Proof.
+  induction l as [|b l IH]; cbn; [split; [discriminate|contradiction]|].
+  rewrite orb_true_iff, N.eqb_eq, IH. tauto.
+Qed.
+
+Lemma contains_byte_app c a b : contains_byte c (a ++ b) = contains_byte c a || contains_byte c b.
+Proof. induction a as [|x a IH]; [reflexivity|]. cbn. rewrite IH. now rewrite orb_assoc. Qed.
+
+(* printable text lines can be rendered: no newline inside, no trailing CR *)
+Lemma last_forall {A} (P : A -> Prop) l d : P d -> (forall x, In x l -> P x) -> P (last l d).
+Proof.
+  intros Hd. induction l as [|x l IH]; intros H; [exact Hd|].
+  destruct l as [|y l]; [apply H; now left|].
+  change (last (x :: y :: l) d) with (last (y :: l) d). apply IH. intros z Hz. apply H. now right.
+Qed.
+
+Lemma text_line_ok l e :
+  forallb text_byte l = true -> (len_N l + 1 <? max_token) = true -> line_ok (l, e) = true.
+Proof.
+  intros Ht Hs. rewrite forallb_forall in Ht. unfold line_ok. cbn [fst snd].
+  apply andb_true_iff. split; [apply andb_true_iff; split|].
+  - unfold no_nl. apply forallb_forall. intros x Hx. apply negb_true_iff, N.eqb_neq.
+    now destruct (text_facts x (Ht x Hx)) as (_ & ? & _).
+  - unfold no_trailing_cr. apply negb_true_iff, N.eqb_neq.
+    apply (last_forall (fun x => x <> CR)); [unfold CR; lia|].
+    intros x Hx. now destruct (text_facts x (Ht x Hx)) as (_ & _ & ?).
+  - apply N.ltb_lt in Hs. apply N.ltb_lt. destruct e; lia.
+Qed.
+
+Lemma graphic_text l : forallb graphic l = true -> forallb text_byte l = true.
+Proof.
+  intros H. apply forallb_forall. intros x Hx. rewrite forallb_forall in H.
+  now destruct (graphic_facts x (H x Hx)) as (_ & _ & _ & _ & ?).
+Qed.
+Lemma blank_text l : forallb blank_byte l = true -> forallb text_byte l = true.
+Proof.
+  intros H. apply forallb_forall. intros x Hx. rewrite forallb_forall in H.
+  now destruct (blank_facts x (H x Hx)) as (_ & _ & ?).
+Qed.
+
+
+Lemma lines_ok_combine ls :
+  forallb (fun le => forallb text_byte (fst le)) ls = true ->
+  forallb (fun le => len_N (fst le) + 1 <? max_token) ls = true ->
+  forallb line_ok ls = true.
+Proof.
+  induction ls as [|[c e] ls IH]; intros H1 H2; [reflexivity|].
+  cbn [forallb fst] in *. apply andb_true_iff in H1 as [A1 A2]. apply andb_true_iff in H2 as [B1 B2].
+  rewrite text_line_ok by assumption. now apply IH.
+Qed.
+
+
+Lemma cons_out_total {A} (xs : list A) o : o <> Panic -> cons_out xs o <> Panic.
+Proof. destruct o; cbn; congruence. Qed.
+
+
+Lemma cons_out_cons_out {A} (a b : list A) o : cons_out a (cons_out b o) = cons_out (a ++ b) o.
+Proof. destruct o; cbn; [now rewrite app_assoc|reflexivity|reflexivity]. Qed.
+Lemma cons_out_nil {A} (o : outcome (list A)) : cons_out [] o = o.
+Proof. destruct o; reflexivity. Qed.
+
+(* ------------------------------------------------------------------ with_eols / blank_lines / last_line_ok *)
+Lemma map_fst_with_eols ls es : map fst (with_eols ls es) = ls.
+Proof.
+  revert es. induction ls as [|l r IH]; intros es; [reflexivity|].
+  destruct es; cbn [with_eols map fst]; now rewrite IH.
+Qed.
+
+Lemma map_fst_blank_lines es : map fst (blank_lines es) = map (fun _ => []) es.
+Proof. unfold blank_lines. rewrite map_map. reflexivity. Qed.
+
+Lemma blank_line_ok e : line_ok ([], e) = true.
+Proof. destruct e; reflexivity. Qed.
+
+Lemma blank_lines_ok es : forallb line_ok (blank_lines es) = true.
+Proof. induction es as [|e es IH]; [reflexivity|]. cbn [blank_lines map forallb]. now rewrite blank_line_ok. Qed.
+
+Lemma with_eols_ok ls es :
+  (forall l e, In l ls -> line_ok (l, e) = true) -> forallb line_ok (with_eols ls es) = true.
+Proof.
+  revert es. induction ls as [|l r IH]; intros es H; [reflexivity|].
+  destruct es; cbn [with_eols forallb]; rewrite H by (now left); cbn [andb];
+    apply IH; intros; apply H; now right.
+Qed.
+
+Lemma last_line_ok_true ls : last_line_ok ls true = true.
+Proof. induction ls as [|[c e] [|x r] IH]; try reflexivity. exact IH. Qed.
+
+Lemma last_line_ok_app a b fnl : b <> [] -> last_line_ok (a ++ b) fnl = last_line_ok b fnl.
+Proof.
+  intros Hb. induction a as [|[c e] a IH]; [reflexivity|].
+  cbn [app]. destruct (a ++ b) as [|x m] eqn:E.
+  - destruct a; [cbn in E; congruence | discriminate].
+  - exact IH.
+Qed.
+
+Lemma last_line_ok_nonempty ls fnl :
+  (forall c e, In (c, e) ls -> c <> []) -> last_line_ok ls fnl = true.
+Proof.
+  induction ls as [|[c e] r IH]; intros H; [reflexivity|].
+  destruct r as [|x r'].
+  - cbn [last_line_ok]. assert (c <> []) as Hc by (apply (H c e); now left).
+    destruct c; [congruence|]. cbn. now rewrite orb_true_r.
+  - change (last_line_ok ((c, e) :: x :: r') fnl) with (last_line_ok (x :: r') fnl).
+    apply IH. intros c' e' Hin. apply (H c' e'). now right.
+Qed.
+
